@@ -83,7 +83,7 @@ def project(c):
     src = c.pick(DOCS)
     dst = c.pick([d for d in DOCS if d != src])
     titles = {d: "Title %s" % d.replace("/", " ") for d in DOCS}
-    spelling = c.pick(["rel", "dot-rel", "abs", "noext", "project", "project-abs", "label", "label-missing", "missing-doc", "path-file", "rel-file", "anchor", "anchor-missing", "project-anchor", "self-anchor", "dup-anchor", "path-file-image"])
+    spelling = c.pick(["rel", "dot-rel", "abs", "noext", "project", "project-abs", "label", "label-missing", "missing-doc", "path-file", "rel-file", "anchor", "anchor-missing", "project-anchor", "self-anchor", "dup-anchor", "path-file-image", "project-missing", "excluded-doc"])
     explicit = bool(c.choose(2))
     srcdir = posixpath.dirname(src)
     rel = posixpath.normpath(posixpath.join(posixpath.relpath(posixpath.dirname(dst) or ".", srcdir or "."), posixpath.basename(dst)))
@@ -109,6 +109,13 @@ def project(c):
         kind = "missing"
     elif spelling == "missing-doc":
         dest = posixpath.relpath("nosuch/zz", srcdir or ".") + ".md"
+        kind = "missing"
+    elif spelling == "project-missing":
+        dest = "project:" + posixpath.relpath("nosuch/zz", srcdir or ".") + ".md"
+        kind = "missing"
+    elif spelling == "excluded-doc":
+        # a Markdown file that exists but is excluded from the project
+        dest = posixpath.relpath("excluded", srcdir or ".") + ".md"
         kind = "missing"
     elif spelling == "path-file":
         dest = "path:" + posixpath.relpath("assets/data.txt", srcdir or ".")
@@ -151,11 +158,12 @@ def project(c):
 def write_project(d, spec):
     os.makedirs(os.path.join(d, "assets"), exist_ok=True)
     open(os.path.join(d, "assets", "data.txt"), "w").write("data\n")
-    open(os.path.join(d, "conf.py"), "w").write("extensions = ['myst_parser']\nmyst_heading_anchors = 2\nexclude_patterns = ['_build']\nsuppress_warnings = ['toc.not_included', 'toc.not_readable']\n"
+    open(os.path.join(d, "conf.py"), "w").write("extensions = ['myst_parser']\nmyst_heading_anchors = 2\nexclude_patterns = ['_build', 'excluded*']\nsuppress_warnings = ['toc.not_included', 'toc.not_readable']\n"
                                               # entries that are only PREFIXES of the unresolvable destinations used below: they must silence nothing
                                               "nitpick_ignore_regex = [('myst', 'lbl-no'), ('myst', r'\\.\\./nosuch'), ('myst', 'nosuch'), ('myst', '.*no-such')]\n"
                                               # for two of the source documents the reference domains exclude 'std': labels and extension-less documents still resolve
                                               + ("myst_ref_domains = ['py']\n" if spec["src"] in ("a", "sub/b") else ""))
+    open(os.path.join(d, "excluded.md"), "w").write("# Excluded\n\ntext\n")
     for doc in DOCS:
         p = os.path.join(d, doc + ".md")
         os.makedirs(os.path.dirname(p), exist_ok=True)
@@ -188,6 +196,7 @@ def build_and_resolve(spec, real=False):
         out = []
         for p in tree.findall(nodes.paragraph):
             if p.astext().startswith("LINK"):
+                spec["para_text"] = p.astext()[4:].strip()
                 for n in p.findall():
                     if isinstance(n, nodes.reference) or n.tagname in ("download_reference", "pending_xref"):
                         out.append(dict(tag=n.tagname, refuri=n.get("refuri"), refid=n.get("refid"), text=n.astext(), filename=n.get("filename"), reftarget=n.get("reftarget"),
@@ -206,6 +215,14 @@ def check(refs, warn, spec):
     nmiss = warn.count("myst.xref_missing") + warn.count("'myst' cross-reference target not found")
     nmiss = warn.count("[myst.xref_missing]")
     kind = spec["kind"]
+    if kind == "missing" and len(refs) == 0:
+        # an unresolvable link need not stay a reference, but its text (or, without text, the destination) must be rendered
+        if nmiss != 1:
+            return ("missing-warning-count", "unresolvable link %r produced %d xref_missing warnings: %r" % (spec["md"], nmiss, warn[:300]))
+        shown = spec.get("para_text", "")
+        if (spec["explicit"] and "my text" not in shown) or not shown:
+            return ("missing-link-text", "unresolvable link %r shows %r" % (spec["md"], shown))
+        return None
     if len(refs) != 1:
         return ("link-count", "link %r produced %d reference nodes: %r" % (spec["md"], len(refs), refs))
     r = refs[0]
@@ -289,7 +306,7 @@ def make(eng):
 
 
 def families(tier, seed):
-    F = [Family("projects", make, "6 documents at depths 0-2 (a sub-directory document sharing its name with a root document; heading anchors whose slug differs from the section id); (source, destination) pairs x 17 link spellings x explicit/empty text (900 projects, one real Sphinx html build each)", nontrivial="crossdir",
+    F = [Family("projects", make, "6 documents at depths 0-2 (a sub-directory document sharing its name with a root document; heading anchors whose slug differs from the section id); (source, destination) pairs x 19 link spellings x explicit/empty text (900 projects, one real Sphinx html build each)", nontrivial="crossdir",
                 max_forks=100000, required=True)]
     return F
 
